@@ -93,6 +93,9 @@ func modeHeader(seed uint64, n int, out *sx.Out) {
 			S = sx.Pick(r, []int64{0, 1, 1<<32 - 1, 1 << 32, 1<<34 - 1, 1500000000})
 		}
 		mmm := r.Intn(1000)
+		if i%8 == 3 {
+			mmm = []int{999, 0, 998, 1, 100, 99, 10, 9}[(i/8)%8] // the ends of the millisecond range and the digit-count steps, every run
+		}
 		N := uint32(r.Next())
 		if r.Chance(1, 6) {
 			N = sx.Pick(r, []uint32{0, 1, 0x7fffffff, 0x80000000, 0xffffffff})
@@ -295,6 +298,10 @@ func modeData(seed uint64, n int, out *sx.Out) {
 					continue
 				}
 				args = append(args, strings.ReplaceAll(genValue(r), " ", "_"))
+			}
+			if r.Chance(1, 10) {
+				// nothing but separators: one, two or three empty arguments
+				args = [][]string{{"", ""}, {"", "", ""}, {"", "", "", ""}}[r.Intn(3)]
 			}
 			title := strings.Join(args, "\x00")
 			if len(args) == 1 && !strings.ContainsAny(title, "\"") && r.Chance(1, 2) {
